@@ -1,5 +1,6 @@
 (* ONE whole pass of assign_optimal_throughput (Model/Pressure.v: balance = balance_from, start 0) over a kernel
-   WITHOUT alternative port assignments (every instruction's micro-ops are a plain list), exact rationals:
+   WITHOUT alternative port assignments (every instruction's micro-ops are a plain list), exact rationals, whatever
+   the exact-zero counter of the run says (repaired rule 1):
    Part D : every instruction's row after the pass is a feasible split of its own micro-ops, slack 1/100 per
             (micro-op, port), every cell >= 0; throughput and micro-ops of every instruction are kept.
    C02    : hence (weak duality, Proofs/Optimum.v) the reported bottleneck -- max of the port sums rounded to
@@ -18,9 +19,63 @@ Definition uopsQ (ports : list string) (ins : instr (T:=Q)) : list uopQ :=
   match i_uops ins with UList us => map (toU ports) us | UDict _ => [] end.
 
 (* what the pass expects of an instruction: a plain micro-op list meeting instr_okb (Proofs/BalanceMulti.v), and a
-   row that is the model's average_port_pressure of that list (that is how the semantic stage builds it) *)
+   row that is -- up to == of rationals -- the model's average_port_pressure of that list (that is how the semantic
+   stage builds it) *)
 Definition start_ok (ports : list string) (ins : instr (T:=Q)) : Prop :=
-  exists us, i_uops ins = UList us /\ instr_okb ports us = true /\ avg_pressure_list QNum ports us = Ok (i_pp ins).
+  exists us v, i_uops ins = UList us /\ instr_okb ports us = true /\ avg_pressure_list QNum ports us = Ok v /\
+               length (i_pp ins) = length v /\ forall p, qnth (i_pp ins) p == qnth v p.
+
+(* the same as a boolean *)
+Definition start_okb (ports : list string) (ins : instr (T:=Q)) : bool :=
+  match i_uops ins with
+  | UList us =>
+    instr_okb ports us &&
+    match avg_pressure_list QNum ports us with
+    | Ok v => Nat.eqb (length (i_pp ins)) (length v) &&
+              forallb (fun p => Qeq_bool (qnth (i_pp ins) p) (qnth v p)) (seq 0 (length v))
+    | Err _ => false
+    end
+  | UDict _ => false
+  end.
+
+Lemma start_okb_ok ports ins : start_okb ports ins = true -> start_ok ports ins.
+Proof.
+  unfold start_okb. destruct (i_uops ins) as [us|alts] eqn:EU; [|discriminate]. intros H.
+  apply andb_true_iff in H. destruct H as (OK & H).
+  destruct (avg_pressure_list QNum ports us) as [v|] eqn:AV; [|discriminate].
+  apply andb_true_iff in H. destruct H as (L & F). apply Nat.eqb_eq in L.
+  exists us, v. split; [exact EU|]. split; [exact OK|]. split; [exact AV|]. split; [exact L|].
+  intros p. destruct (Nat.lt_ge_cases p (length v)) as [Lp|Lp].
+  - rewrite forallb_forall in F. apply Qeq_bool_iff. apply F. apply in_seq. lia.
+  - unfold qnth. rewrite !nth_overflow by lia. reflexivity.
+Qed.
+
+Lemma start_ok_of_avg ports ins us :
+  i_uops ins = UList us -> instr_okb ports us = true -> avg_pressure_list QNum ports us = Ok (i_pp ins) ->
+  start_ok ports ins.
+Proof.
+  intros EU OK AV. exists us, (i_pp ins). split; [exact EU|]. split; [exact OK|]. split; [exact AV|].
+  split; [reflexivity|]. intros p. reflexivity.
+Qed.
+
+Lemma feasible_ext P eps us v w : (forall p, (p < P)%nat -> w p == v p) -> Feasible P eps us v -> Feasible P eps us w.
+Proof.
+  intros E (sh & A & B & C & D). exists sh. split; [exact A|]. split; [exact B|]. split; [exact C|].
+  intros p Hp. rewrite (E p Hp). apply D. exact Hp.
+Qed.
+
+Lemma start_ok_uniform ports ins us v :
+  instr_okb ports us = true -> avg_pressure_list QNum ports us = Ok v ->
+  length (i_pp ins) = length v -> (forall p, qnth (i_pp ins) p == qnth v p) ->
+  (forall u, In u us -> wf_names ports u) /\ length (i_pp ins) = length ports /\
+  (forall p, qnth (i_pp ins) p == uniform (map (toU ports) us) p).
+Proof.
+  intros OK AV L E.
+  assert (WF : forall u, In u us -> wf_names ports u).
+  { intros u Hu. apply (uop_okb_spec ports (length us)). unfold instr_okb in OK. rewrite forallb_forall in OK. apply OK. exact Hu. }
+  destruct (avg_pressure_is_uniform _ _ _ AV WF) as (Lv & V).
+  split; [exact WF|]. split; [congruence|]. intros p. rewrite (E p). apply V.
+Qed.
 
 (* what the pass delivers *)
 Definition done_ok (ports : list string) (ins : instr (T:=Q)) : Prop :=
@@ -29,17 +84,14 @@ Definition done_ok (ports : list string) (ins : instr (T:=Q)) : Prop :=
 
 Lemma start_done ports ins : start_ok ports ins -> done_ok ports ins.
 Proof.
-  intros (us & EU & OK & AV).
-  assert (WF : forall u, In u us -> wf_names ports u).
-  { intros u Hu. apply (uop_okb_spec ports (length us)). unfold instr_okb in OK. rewrite forallb_forall in OK. apply OK. exact Hu. }
-  destruct (avg_pressure_is_uniform _ _ _ AV WF) as (L & V).
-  unfold done_ok, uopsQ. rewrite EU. split; [|split; [exact L|]].
-  - apply (feasible_mono _ 0); [lra|]. apply uniform_model_feasible; assumption.
-  - intros p. destruct (Nat.lt_ge_cases p (length (i_pp ins))) as [Lp|Lp].
-    + pose proof (V p) as E. unfold qnth in E. rewrite E. apply uniform_nonneg.
-      intros x Hx. apply in_map_iff in Hx. destruct Hx as (y & E' & Hy). subst x.
-      destruct (WF y Hy) as (Hy0 & _). exact Hy0.
-    + rewrite nth_overflow by exact Lp. lra.
+  intros (us & v & EU & OK & AV & L & E).
+  destruct (start_ok_uniform ports ins us v OK AV L E) as (WF & LP & UN).
+  unfold done_ok, uopsQ. rewrite EU. split; [|split; [exact LP|]].
+  - apply (feasible_mono _ 0); [lra|].
+    apply (feasible_ext _ _ _ (qnth v)); [intros p _; apply E|]. apply uniform_model_feasible; assumption.
+  - intros p. pose proof (UN p) as E'. unfold qnth in E'. rewrite E'. apply uniform_nonneg.
+    intros x Hx. apply in_map_iff in Hx. destruct Hx as (y & E'' & Hy). subst x.
+    destruct (WF y Hy) as (Hy0 & _). exact Hy0.
 Qed.
 
 (* ================================================================ set_pp *)
@@ -87,42 +139,28 @@ Section GoLoop.
     rewrite O; [exact Sj|]. intros C. subst j. contradiction.
   Qed.
 
-  Lemma go_mono : forall todo kk m b e kf mf bf ef,
-    NoDup todo -> todo_ok todo kk -> go todo kk m b e = Ok (kf, mf, bf, ef) -> (e <= ef)%nat.
-  Proof.
-    induction todo as [|idx rest IH]; intros kk m b e kf mf bf ef ND T H.
-    - rewrite go_nil in H. inversion H; subst. lia.
-    - destruct (T idx (or_introl eq_refl)) as (Li & (us & EU & _)).
-      rewrite (go_cons idx rest kk m b e us Li EU) in H.
-      destruct (balance_uops QNum ports kk idx _ us e) as [[pp' e2]|] eqn:B; cbn [bind fst snd] in H; [|discriminate].
-      apply balance_uops_exact0_mono in B.
-      apply IH in H; [lia | inversion ND; assumption | eapply todo_ok_step; eassumption].
-  Qed.
-
-  Lemma go_inv : forall todo kk m b e kf mf bf,
-    NoDup todo -> todo_ok todo kk -> go todo kk m b e = Ok (kf, mf, bf, e) ->
+  Lemma go_inv : forall todo kk m b e kf mf bf ef,
+    NoDup todo -> todo_ok todo kk -> go todo kk m b e = Ok (kf, mf, bf, ef) ->
     length kf = length kk /\ (m = false -> mf = false) /\
     forall j, (j < length kk)%nat ->
       i_tp (nth j kf dins) = i_tp (nth j kk dins) /\ i_uops (nth j kf dins) = i_uops (nth j kk dins) /\
       (In j todo -> done_ok ports (nth j kf dins)) /\
       (~ In j todo -> nth j kf dins = nth j kk dins).
   Proof.
-    induction todo as [|idx rest IH]; intros kk m b e kf mf bf ND T H.
+    induction todo as [|idx rest IH]; intros kk m b e kf mf bf ef ND T H.
     - rewrite go_nil in H. inversion H; subst. split; [reflexivity|]. split; [auto|].
       intros j Hj. split; [reflexivity|]. split; [reflexivity|]. split; [intros []|reflexivity].
-    - destruct (T idx (or_introl eq_refl)) as (Li & (us & EU & OK & AV)).
+    - destruct (T idx (or_introl eq_refl)) as (Li & (us & v & EU & OK & AV & LV & EV)).
+      destruct (start_ok_uniform ports _ us v OK AV LV EV) as (_ & LP0 & UN0).
       rewrite (go_cons idx rest kk m b e us Li EU) in H.
       destruct (balance_uops QNum ports kk idx _ us e) as [[pp' e2]|] eqn:B; cbn [bind fst snd] in H; [|discriminate].
-      pose proof (balance_uops_exact0_mono _ _ _ _ _ _ _ _ _ B) as M1.
       inversion ND as [|? ? Hnotin ND']; subst.
       pose proof (todo_ok_step idx rest kk pp' ND T) as T'.
-      pose proof (go_mono _ _ _ _ _ _ _ _ _ ND' T' H) as M2.
-      assert (e2 = e) by lia. subst e2.
-      destruct (balance_instr_feasible ports kk idx us _ e pp' OK AV B) as (F & LP & NN).
+      destruct (balance_instr_feasible_gen ports kk idx us _ e pp' e2 OK LP0 (fun p _ => UN0 p) B) as (F & LP & NN).
       destruct (set_pp_spec kk idx pp' Li) as (L & N & O).
-      destruct (IH _ _ _ _ _ _ _ ND' T' H) as (L' & _ & J). rewrite L in L', J.
+      destruct (IH _ _ _ _ _ _ _ _ ND' T' H) as (L' & _ & J). rewrite L in L', J.
       split; [exact L'|]. split; [intros _|].
-      + destruct (IH _ _ _ _ _ _ _ ND' T' H) as (_ & MF & _). apply MF. reflexivity.
+      + destruct (IH _ _ _ _ _ _ _ _ ND' T' H) as (_ & MF & _). apply MF. reflexivity.
       + intros j Hj. destruct (J j Hj) as (J1 & J2 & J3 & J4).
         destruct (Nat.eq_dec j idx) as [e0|n0].
         * subst j. rewrite J1, J2, N. cbn [i_tp i_uops]. split; [reflexivity|]. split; [reflexivity|].
@@ -139,9 +177,13 @@ End GoLoop.
 Definition all_start_ok (ports : list string) (k : list (instr (T:=Q))) : Prop :=
   forall ins, In ins k -> start_ok ports ins.
 
-Theorem balance_pass_feasible ports (k k' : list (instr (T:=Q))) :
+(* decidable form of the hypothesis *)
+Lemma all_start_okb_ok ports k : forallb (start_okb ports) k = true -> all_start_ok ports k.
+Proof. intros H ins Hi. apply start_okb_ok. rewrite forallb_forall in H. apply H. exact Hi. Qed.
+
+Theorem balance_pass_feasible ports (k k' : list (instr (T:=Q))) e :
   all_start_ok ports k ->
-  balance QNum ports k = Ok (k', 0%nat) ->
+  balance QNum ports k = Ok (k', e) ->
   length k' = length k /\
   forall j, (j < length k)%nat ->
     i_tp (nth j k' dins) = i_tp (nth j k dins) /\ i_uops (nth j k' dins) = i_uops (nth j k dins) /\
@@ -162,23 +204,15 @@ Proof.
       go (idx :: rest) kk m b e =
       bind (balance_uops QNum ports kk idx (i_pp (nth idx kk dins)) us e)
            (fun r => go rest (set_pp kk idx (fst r)) false b (snd r))).
-    { intros idx rest kk m b e us Li EU. unfold go at 1. lazy beta iota fix.
+    { intros idx rest kk m b e1 us Li EU. unfold go at 1. lazy beta iota fix.
       rewrite (nth_error_nth' kk dins Li). lazy beta iota. rewrite EU. cbn [bind].
       rewrite (nth_error_nth' kk dins Li).
-      destruct (balance_uops QNum ports kk idx (i_pp (nth idx kk dins)) us e) as [[pp' e2]|]; reflexivity. }
+      destruct (balance_uops QNum ports kk idx (i_pp (nth idx kk dins)) us e1) as [[pp' e2]|]; reflexivity. }
     assert (ND : NoDup (seq 0 (length (rev k) - 0))) by apply seq_NoDup.
     assert (T : todo_ok ports (seq 0 (length (rev k) - 0)) (rev k)).
     { intros j Hj. apply in_seq in Hj. split; [lia|]. apply ST. apply in_rev. apply nth_In. lia. }
-    pose proof (go_mono ports go GN GC _ _ _ _ _ _ _ _ _ ND T G) as M.
-    assert (E : k' = rev kfin /\ ex = 0%nat).
-    { destruct multi.
-      - exfalso. destruct ex as [|ex'].
-        + destruct (go_inv ports go GN GC _ _ _ _ _ _ _ _ ND T G) as (_ & MF & _). specialize (MF eq_refl). discriminate.
-        + destruct (list_max QNum (tp_sum QNum (rev kfin))) as [mm|]; cbn [bind] in H; [|discriminate].
-          destruct best as [[bk btp]|]; [destruct (nltb QNum btp mm)|]; inversion H.
-      - inversion H; subst. auto. }
-    destruct E as (E1 & E2). subst k' ex.
-    destruct (go_inv ports go GN GC _ _ _ _ _ _ _ _ ND T G) as (L & _ & J).
+    destruct (go_inv ports go GN GC _ _ _ _ _ _ _ _ _ ND T G) as (L & MF & J).
+    rewrite (MF eq_refl) in H. inversion H; subst k'. clear H MF.
     rewrite rev_length in *. split; [exact L|].
     intros j Hj. rewrite Nat.sub_0_r in J.
     assert (Hj' : (length k - S j < length k)%nat) by lia.
@@ -198,7 +232,7 @@ Example balance_pass_nonvacuous :
              i_pp (nth 0 k' dins) = [12 # 25; 63 # 100; 16 # 25] /\ i_pp (nth 0 exm_kernel dins) = [1 # 2; 3 # 4; 1 # 2].
 Proof.
   split.
-  - intros ins [E|[E|[]]]; subst ins; eexists; (split; [reflexivity|]); split; vm_compute; reflexivity.
+  - apply all_start_okb_ok. vm_compute. reflexivity.
   - eexists. split; [vm_compute; reflexivity|]. split; reflexivity.
 Qed.
 
@@ -304,13 +338,13 @@ Proof. unfold kslack, knonconf. apply sumn_scale. Qed.
 
 (* weak duality (Proofs/Optimum.v) applied to the kernel AFTER one pass: ks = the counted instructions of k' with
    their own micro-ops and balanced rows *)
-Theorem pass_bottleneck_ge_optimum ports (k k' : list (instr (T:=Q))) B S :
-  all_start_ok ports k -> balance QNum ports k = Ok (k', 0%nat) -> bottleneck QNum k' = Ok B ->
+Theorem pass_bottleneck_ge_optimum ports (k k' : list (instr (T:=Q))) e B S :
+  all_start_ok ports k -> balance QNum ports k = Ok (k', e) -> bottleneck QNum k' = Ok B ->
   kconfined S (kview ports (filter (counted QNum) k'))
   - kslack (length ports) (1 # 100) S (kview ports (filter (counted QNum) k'))
   <= card (length ports) S * (B + (1 # 200)).
 Proof.
-  intros ST H HB. destruct (balance_pass_feasible ports k k' ST H) as (L & J).
+  intros ST H HB. destruct (balance_pass_feasible ports k k' e ST H) as (L & J).
   assert (DONE : forall ins, In ins k' -> done_ok ports ins).
   { intros ins Hi. apply (In_nth _ _ dins) in Hi. destruct Hi as (j & Hj & E). subst ins.
     rewrite L in Hj. apply (J j Hj). }
@@ -347,10 +381,10 @@ Proof.
   rewrite !kconfined_cons, !knonconf_cons. cbn [fst]. unfold uopsQ. rewrite Euo, I1, I2. split; reflexivity.
 Qed.
 
-Lemma pass_keeps_shape ports (k k' : list (instr (T:=Q))) :
-  all_start_ok ports k -> balance QNum ports k = Ok (k', 0%nat) -> map tpu k' = map tpu k.
+Lemma pass_keeps_shape ports (k k' : list (instr (T:=Q))) e :
+  all_start_ok ports k -> balance QNum ports k = Ok (k', e) -> map tpu k' = map tpu k.
 Proof.
-  intros ST H. destruct (balance_pass_feasible ports k k' ST H) as (L & J).
+  intros ST H. destruct (balance_pass_feasible ports k k' e ST H) as (L & J).
   apply (nth_ext _ _ (tpu dins) (tpu dins)); [rewrite !map_length; exact L|].
   intros j Hj. rewrite map_length, L in Hj. rewrite !map_nth. unfold tpu.
   destruct (J j Hj) as (J1 & J2 & _). rewrite J1, J2. reflexivity.
@@ -359,15 +393,15 @@ Qed.
 (* C02, one pass: for EVERY non-empty port set S, the reported bottleneck B is at least the cycles of the INPUT
    kernel's (counted) micro-ops confined to S divided by |S| -- the exact optimum is the max of that over S --
    minus 1/100 per counted micro-op not confined to S, minus half a hundredth for the rounding of the port sums *)
-Theorem pass_bottleneck_near_optimum ports (k k' : list (instr (T:=Q))) B S :
-  all_start_ok ports k -> balance QNum ports k = Ok (k', 0%nat) -> bottleneck QNum k' = Ok B ->
+Theorem pass_bottleneck_near_optimum ports (k k' : list (instr (T:=Q))) e B S :
+  all_start_ok ports k -> balance QNum ports k = Ok (k', e) -> bottleneck QNum k' = Ok B ->
   0 < card (length ports) S ->
   kconfined S (kview ports (filter (counted QNum) k)) / card (length ports) S
   - (1 # 100) * knonconf S (kview ports (filter (counted QNum) k)) - (1 # 200) <= B.
 Proof.
   intros ST H HB HC.
-  pose proof (pass_bottleneck_ge_optimum ports k k' B S ST H HB) as G.
-  destruct (same_shape_same_optimum ports S k k' (pass_keeps_shape ports k k' ST H)) as (E1 & E2).
+  pose proof (pass_bottleneck_ge_optimum ports k k' e B S ST H HB) as G.
+  destruct (same_shape_same_optimum ports S k k' (pass_keeps_shape ports k k' e ST H)) as (E1 & E2).
   rewrite kslack_knonconf, E1, E2 in G.
   set (C := kconfined S _) in *. set (N := knonconf S _) in *. set (c := card _ S) in *. clearbody C N c.
   assert (G' : C / c <= B + (1 # 200) + (1 # 100) * N).
